@@ -63,7 +63,11 @@ class Creators:
       if gfapy.is_placeholder(key):
         key = id(gfa_line)
       elif isinstance(key, str) and key.isdecimal():
-        keynum = int(key)
+        try:
+          keynum = int(key)
+        except ValueError:
+          # (more digits than the Python integer conversion accepts)
+          keynum = 0
         if keynum > self._max_int_name:
           self._max_int_name = keynum
       self._records[gfa_line.record_type][key] = gfa_line
